@@ -308,6 +308,14 @@ def gen_term_case(r, idx, wild=False, nops=None, kinds=None):
                 b0 = int(txt.split()[1])
                 # where a library that tracked these itself would believe the cursor to be
                 cur = (0, cur[1]) if b0 == 13 else (cur[0] - 1, cur[1]) if b0 == 8 else cur if b0 < 32 else (cur[0] + 1, cur[1])
+        elif k < 13 and not wild and r.chance(1, 8):
+            # plain text streamed directly: term << "text" / term << std::string
+            bs = [r.rng(32, 126) for _ in range(r.rng(0, 6))]
+            if r.chance(1, 4):
+                bs += [r.pick([10, 13, 9])] + [r.rng(32, 126) for _ in range(r.below(3))]
+            lines.append("T 0 %s %s" % (r.pick(["cstr", "stdstr"]), hexs(bs)))
+            if cur is not None:
+                cur = (cur[0] + len(bs), cur[1])
         elif k < 13:
             m = r.rng(0, 5)
             if long and r.chance(1, 2):
@@ -746,7 +754,7 @@ def gen_items_case(r, idx):
         if not long and r.chance(1, 4):
             # the items arrive cut across two reads, and the application uses the
             # terminal for something else in between
-            between = r.pick(["-", "-", "size_%d_%d" % (r.rng(1, 9), r.rng(1, 5)), "size_80_24", "mouse_0", "mouse_1", "hide", "show",
+            between = r.pick(["-", "-", "sleep_1200" if idx % 400 == 7 else "-", "size_%d_%d" % (r.rng(1, 9), r.rng(1, 5)), "size_80_24", "mouse_0", "mouse_1", "hide", "show",
                               "erase_0", "move_0_0", "save", "restore", "buf_1", "buf_0", "title_6162", "alive_0", "alive_1",
                               "elem_" + el(wf_glyph(r), wf_attr(r)).replace(" ", "_")])
             lines.append("T 0 itemsplit %d %s %s" % (r.below(64), between, " ".join(its)))
